@@ -32,10 +32,15 @@ def identVal : List (Nat × Nat) → V
   | [x, y] => if x = y then .T else .F
   | _ => .F
 
+/-- the domain is the set of all constant names, but every name that does not occur on the branch
+    behaves exactly like one fixed name `c0` that does (if any does): predications look at `pi d` -/
+def c0 : Nat × Nat := (b.constList.head?).getD (0, 0)
+def pi (d : Nat × Nat) : Nat × Nat := if b.constList.contains d then d else c0 b
+
 def predVal (w : Nat) (p : Pred) (ds : List (Nat × Nat)) : V :=
   if p = Pred.identity then identVal ds
   else if p = Pred.existence then .T
-  else readVal L b (.pred p (ds.map fun d => Param.const d.1 d.2)) w
+  else readVal L b (.pred p ((ds.map (pi b)).map fun d => Param.const d.1 d.2)) w
 
 @[reducible] def struct : Struct where
   W := Nat
@@ -73,6 +78,31 @@ theorem predVal_mem (hu : L.T.unassigned ∈ L.T.vals) (hT : V.T ∈ L.T.vals) (
   · split
     · exact hT
     · exact readVal_mem hu _ _
+
+theorem mem_constList {d : Nat × Nat} : d ∈ b.constList ↔ d ∈ b.consts := by
+  simp [Branch.constList, dedupPair, List.mem_eraseDups]
+
+theorem pi_of_mem {d : Nat × Nat} (h : d ∈ b.consts) : pi b d = d := by
+  unfold pi
+  have : b.constList.contains d = true := by simpa using mem_constList.2 h
+  rw [if_pos this]
+
+theorem c0_mem (hne : b.constList ≠ []) : c0 b ∈ b.constList := by
+  unfold c0
+  cases h : b.constList with
+  | nil => exact absurd h hne
+  | cons x xs => simp
+
+theorem pi_mem (hne : b.constList ≠ []) (d : Nat × Nat) : pi b d ∈ b.constList := by
+  unfold pi
+  split
+  · next h => simpa using h
+  · exact c0_mem hne
+
+theorem pi_idem (d : Nat × Nat) : pi b (pi b d) = pi b d := by
+  by_cases hne : b.constList = []
+  · simp [pi, c0, hne]
+  · exact pi_of_mem (mem_constList.1 (pi_mem hne d))
 
 theorem predVal_identity (w : Nat) (a c : Nat × Nat) : predVal L b w Pred.identity [a, c] = V.T ↔ a = c := by
   simp only [predVal, ↓reduceIte, identVal]
@@ -214,6 +244,121 @@ theorem interp (hu : L.T.unassigned ∈ L.T.vals) (hT : V.T ∈ L.T.vals) (hF : 
     · exact predVal_identity (L := L) (b := b) w a c
     · show predVal L b w Pred.existence [a] = V.T
       simp [predVal, Pred.existence, Pred.identity]
+
+/-! ### names off the branch behave like `c0`: evaluation only sees `pi` of the denotations -/
+
+def normEnv (b : Branch) (e : Env (Nat × Nat)) : Env (Nat × Nat) :=
+  ⟨fun i s => pi b (e.c i s), fun i s => pi b (e.g i s)⟩
+
+theorem den_norm (e : Env (Nat × Nat)) (p : Param) : (normEnv b e).den p = pi b (e.den p) := by
+  cases p <;> rfl
+
+theorem normEnv_updVar (e : Env (Nat × Nat)) (vi vs : Nat) (d : Nat × Nat) :
+    normEnv b (e.updVar vi vs d) = (normEnv b e).updVar vi vs (pi b d) := by
+  unfold normEnv Env.updVar
+  simp only
+  congr 1
+  funext i s
+  split <;> rfl
+
+theorem normEnv_idem (e : Env (Nat × Nat)) : normEnv b (normEnv b e) = normEnv b e := by
+  unfold normEnv
+  simp only [pi_idem]
+
+theorem fo_noSys {s : Sent} : ∀ {bound : List (Nat × Nat)}, s.fo L bound = true → s.noSys L = true := by
+  induction s with
+  | atom i j => intro _ _; rfl
+  | pred p ps =>
+    intro bound h
+    simp only [Sent.fo, Bool.and_eq_true] at h
+    simp only [Sent.noSys, Bool.and_eq_true]
+    exact h.1
+  | quant q vi vs body ih =>
+    intro bound h
+    simp only [Sent.fo, Bool.or_eq_true, Bool.not_eq_true', Bool.and_eq_true] at h
+    simp only [Sent.noSys, Bool.or_eq_true, Bool.not_eq_true']
+    rcases h with h | h
+    · exact Or.inl h
+    · exact Or.inr (ih h.2)
+  | op1 o a ih =>
+    intro bound h
+    simp only [Sent.fo, Bool.or_eq_true] at h
+    simp only [Sent.noSys, Bool.or_eq_true]
+    rcases h with h | h
+    · exact Or.inl h
+    · exact Or.inr (ih h)
+  | op2 o a c iha ihc =>
+    intro bound h
+    simp only [Sent.fo, Bool.and_eq_true] at h
+    simp only [Sent.noSys, Bool.and_eq_true]
+    exact ⟨iha h.1, ihc h.2⟩
+
+/-- evaluation in the canonical structure does not distinguish a denotation from its `pi` -/
+theorem eval_norm : ∀ (s : Sent), s.noSys L = true → ∀ (e : Env (Nat × Nat)) (w : Nat),
+    eval L (struct L b) e w s = eval L (struct L b) (normEnv b e) w s := by
+  intro s
+  induction s with
+  | atom i j => intro _ e w; rfl
+  | pred p ps =>
+    intro h e w
+    simp only [Sent.noSys, Bool.and_eq_true, bne_iff_ne, ne_eq] at h
+    show predVal L b w p (ps.map e.den) = predVal L b w p (ps.map (normEnv b e).den)
+    unfold predVal
+    rw [if_neg h.1, if_neg h.2, if_neg h.1, if_neg h.2]
+    congr 3
+    rw [List.map_map, List.map_map]
+    apply List.map_congr_left
+    intro p' _
+    simp only [Function.comp, den_norm, pi_idem]
+  | quant q vi vs body ih =>
+    intro h e w
+    simp only [Sent.noSys, Bool.or_eq_true, Bool.not_eq_true'] at h
+    simp only [eval]
+    split
+    · next hq =>
+      have hb : body.noSys L = true := by
+        rcases h with h | h
+        · rw [hq] at h; cases h
+        · exact h
+      congr 2
+      funext d
+      rw [ih hb (e.updVar vi vs d) w, ih hb ((normEnv b e).updVar vi vs d) w, normEnv_updVar, normEnv_updVar, normEnv_idem]
+    · rfl
+  | op1 o a ih =>
+    intro h e w
+    simp only [Sent.noSys, Bool.or_eq_true, Bool.and_eq_true, Bool.not_eq_true'] at h
+    simp only [eval]
+    split
+    · next hmo =>
+      split
+      · next hm =>
+        have ha : a.noSys L = true := by
+          rcases h with h | h
+          · rw [hm] at h; exact absurd h.2 (by simp)
+          · exact h
+        congr 2
+        funext w'
+        exact ih ha e w'
+      · rfl
+    · next hmo =>
+      have ha : a.noSys L = true := by
+        rcases h with h | h
+        · exact absurd h.1 hmo
+        · exact h
+      rw [ih ha e w]
+  | op2 o a c iha ihc =>
+    intro h e w
+    simp only [Sent.noSys, Bool.and_eq_true] at h
+    simp only [eval]
+    rw [iha h.1 e w, ihc h.2 e w]
+
+/-- a body cannot tell a domain element from its `pi` -/
+theorem eval_updVar_pi {body : Sent} (h : body.noSys L = true) (e : Env (Nat × Nat)) (w : Nat) (vi vs : Nat)
+    (d : Nat × Nat) :
+    eval L (struct L b) (e.updVar vi vs d) w body = eval L (struct L b) (e.updVar vi vs (pi b d)) w body := by
+  rw [eval_norm body h (e.updVar vi vs d) w, eval_norm body h (e.updVar vi vs (pi b d)) w,
+    normEnv_updVar, normEnv_updVar, pi_idem]
+
 
 end Canon
 end Ptx
